@@ -33,4 +33,6 @@ VARIANTS = [
         dict(file=I, old="    correspondence = {}\n", new="    key_to_index = {}\n"),
         dict(file=I, old="        correspondence[original_idx] = idx\n", new="        key_to_index[original_idx] = idx\n"),
         dict(file=I, old=".format(atom_idx=correspondence[x],", new=".format(atom_idx=key_to_index[x],")]),
+    dict(name='comment-inside-parameters-field (seed C02_e)', expect='fire', key='TAB-sections|comment-last', edits=[
+        dict(file=I, old="                    comment = ' ; ' + interaction.meta['comment']", new="                    parameters += ' ; ' + interaction.meta['comment']")]),
 ]
